@@ -634,8 +634,10 @@ func (e *verifEnv) install(w *verifLbcWorld) {
 			svc.Spec.Ports = append(svc.Spec.Ports, sp)
 			es.Ports = append(es.Ports, discovery_v1.EndpointPort{Port: &[]int32{tp}[0], Protocol: &proto, Name: &[]string{sp.Name}[0]})
 		}
-		es.Endpoints = []discovery_v1.Endpoint{{Addresses: []string{"10.2.0.1"}, Conditions: discovery_v1.EndpointConditions{Ready: &t}},
-			{Addresses: []string{"10.2.0.2"}, Conditions: discovery_v1.EndpointConditions{Ready: &t}}}
+		if verifDepsMode != "noendpoints" {
+			es.Endpoints = []discovery_v1.Endpoint{{Addresses: []string{"10.2.0.1"}, Conditions: discovery_v1.EndpointConditions{Ready: &t}},
+				{Addresses: []string{"10.2.0.2"}, Conditions: discovery_v1.EndpointConditions{Ready: &t}}}
+		}
 		_ = nsi.svcLister.Add(svc)
 		_ = nsi.endpointSliceLister.Store.Add(es)
 	}
@@ -647,6 +649,12 @@ func (e *verifEnv) install(w *verifLbcWorld) {
 	for _, k := range sk {
 		ns, name := verifSplitKey(k)
 		typ := e.secrets[k]
+		if verifDepsMode == "nosecrets" {
+			continue
+		}
+		if verifDepsMode == "badsecrets" {
+			typ = "bad"
+		}
 		var s *api_v1.Secret
 		if typ == "oidc" {
 			s = &api_v1.Secret{ObjectMeta: metav1.ObjectMeta{Namespace: ns, Name: name}, Type: secrets.SecretTypeOIDC, Data: map[string][]byte{"client-secret": []byte("sec")}}
@@ -1163,4 +1171,345 @@ func VerifInjFiles(kv map[string]string) string {
 		out = append(out, verifClean(f)+"="+hex.EncodeToString([]byte(files[f])))
 	}
 	return strings.Join(out, ",")
+}
+
+// ---------------------------------------------------------------- C07: whole-output oracle over generated resource sets
+
+// verifInstantiate makes a copy of a fixture under another namespace, name prefix and host tag. References inside the
+// fixture set (policies, routes, App Protect resources: "d/x" or bare names) move with the namespace.
+func verifInstantiate(f *verifFx, ns, prefix, hostTag string) (interface{}, error) {
+	raw := string(f.Raw)
+	raw = strings.ReplaceAll(raw, "example.com", hostTag+".example.com")
+	raw = strings.ReplaceAll(raw, "namespace: d\n", "namespace: "+ns+"\n")
+	raw = strings.ReplaceAll(raw, " d/", " "+ns+"/")
+	raw = strings.ReplaceAll(raw, "\"d/", "\""+ns+"/")
+	raw = strings.ReplaceAll(raw, ",d/", ","+ns+"/")
+	g := &verifFx{File: f.File, Kind: f.Kind, PlusOnly: f.PlusOnly, Raw: []byte(raw)}
+	o, err := g.decode()
+	if err != nil {
+		return nil, err
+	}
+	switch x := o.(type) {
+	case *networking.Ingress:
+		x.Name = prefix + x.Name
+	case *conf_v1.VirtualServer:
+		x.Name = prefix + x.Name
+	case *conf_v1.TransportServer:
+		x.Name = prefix + x.Name
+		if x.Spec.Listener.Protocol != "TLS_PASSTHROUGH" {
+			x.Spec.Listener.Name = strings.ToLower(hostTag) + "-" + x.Spec.Listener.Name
+		}
+	}
+	return o, nil
+}
+
+// verifMinimal builds small resources whose identifiers are made from the given parts only.
+func verifMinimal(kind, ns, name, host, svc string) interface{} {
+	switch kind {
+	case "ing":
+		pt := networking.PathTypePrefix
+		ing := &networking.Ingress{ObjectMeta: metav1.ObjectMeta{Namespace: ns, Name: name, Annotations: map[string]string{}}}
+		ing.Spec.Rules = []networking.IngressRule{{Host: host, IngressRuleValue: networking.IngressRuleValue{HTTP: &networking.HTTPIngressRuleValue{
+			Paths: []networking.HTTPIngressPath{{Path: "/", PathType: &pt, Backend: networking.IngressBackend{Service: &networking.IngressServiceBackend{Name: svc, Port: networking.ServiceBackendPort{Number: 80}}}}}}}}}
+		return ing
+	case "vs":
+		vs := &conf_v1.VirtualServer{ObjectMeta: metav1.ObjectMeta{Namespace: ns, Name: name}}
+		vs.Spec.Host = host
+		vs.Spec.Upstreams = []conf_v1.Upstream{{Name: svc, Service: svc, Port: 80}}
+		vs.Spec.Routes = []conf_v1.Route{{Path: "/", Action: &conf_v1.Action{Pass: svc}},
+			{Path: "/ret", Matches: []conf_v1.Match{{Conditions: []conf_v1.Condition{{Header: "x-a", Value: "1"}}, Action: &conf_v1.Action{Return: &conf_v1.ActionReturn{Body: "m"}}}},
+				Action: &conf_v1.Action{Return: &conf_v1.ActionReturn{Body: "d"}}},
+			{Path: "/mixed", Matches: []conf_v1.Match{{Conditions: []conf_v1.Condition{{Header: "x-a", Value: "1"}}, Action: &conf_v1.Action{Pass: svc}},
+				{Conditions: []conf_v1.Condition{{Header: "x-a", Value: "2"}}, Action: &conf_v1.Action{Return: &conf_v1.ActionReturn{Body: "m2"}}},
+				{Conditions: []conf_v1.Condition{{Header: "x-a", Value: "3"}}, Splits: []conf_v1.Split{{Weight: 50, Action: &conf_v1.Action{Return: &conf_v1.ActionReturn{Body: "s1"}}}, {Weight: 50, Action: &conf_v1.Action{Pass: svc}}}}},
+				Action: &conf_v1.Action{Return: &conf_v1.ActionReturn{Body: "d2"}}},
+			{Path: "/split", Splits: []conf_v1.Split{{Weight: 50, Action: &conf_v1.Action{Pass: svc}}, {Weight: 50, Action: &conf_v1.Action{Return: &conf_v1.ActionReturn{Body: "s"}}}}}}
+		return vs
+	case "ts":
+		ts := &conf_v1.TransportServer{ObjectMeta: metav1.ObjectMeta{Namespace: ns, Name: name}}
+		ts.Spec.Listener = conf_v1.TransportServerListener{Name: conf_v1.TLSPassthroughListenerName, Protocol: conf_v1.TLSPassthroughListenerProtocol}
+		ts.Spec.Host = host
+		ts.Spec.Upstreams = []conf_v1.TransportServerUpstream{{Name: svc, Service: svc, Port: 80}}
+		ts.Spec.Action = &conf_v1.TransportServerAction{Pass: svc}
+		return ts
+	}
+	return nil
+}
+
+// directives that may stand without an argument
+var verifZeroArg = map[string]bool{"internal": true, "ip_hash": true, "least_conn": true, "ntlm": true, "random": true, "ssl_preread": true,
+	"proxy_protocol": true, "premium": true, "stub_status": true, "sticky": false}
+
+// exact / bounded arities of the directives the templates write most (NGINX documentation); min, max (-1 = any)
+var verifArity = map[string][2]int{"proxy_hide_header": {1, 1}, "proxy_pass_header": {1, 1}, "proxy_set_header": {2, 2}, "grpc_set_header": {2, 2},
+	"proxy_pass": {1, 1}, "grpc_pass": {1, 1}, "set": {2, 2}, "add_header": {2, 3}, "return": {1, 2}, "rewrite": {2, 3}, "upstream": {1, 1}, "zone": {1, 2},
+	"server_name": {1, -1}, "listen": {1, -1}, "location": {1, 2}, "limit_req_zone": {3, 4}, "keyval_zone": {1, 5}, "keyval": {3, 3}, "map": {2, 2}, "match": {1, 1},
+	"status_zone": {1, 1}, "client_max_body_size": {1, 1}, "proxy_connect_timeout": {1, 1}, "proxy_read_timeout": {1, 1}, "proxy_send_timeout": {1, 1},
+	"proxy_buffering": {1, 1}, "proxy_buffers": {2, 2}, "proxy_buffer_size": {1, 1}, "proxy_max_temp_file_size": {1, 1}, "ssl_certificate": {1, 1},
+	"ssl_certificate_key": {1, 1}, "auth_basic": {1, 1}, "auth_basic_user_file": {1, 1}, "auth_jwt": {1, 2}, "auth_jwt_key_file": {1, 1}, "error_page": {2, -1},
+	"proxy_ssl_name": {1, 1}, "proxy_ssl_ciphers": {1, 1}, "proxy_ssl_protocols": {1, -1}, "ssl_crl": {1, 1}, "ssl_client_certificate": {1, 1},
+	"hash": {1, 2}, "server_tokens": {1, 1}, "split_clients": {2, 2}, "limit_req": {1, 4}, "proxy_http_version": {1, 1}, "default_type": {1, 1},
+	"app_protect_security_log": {1, 2}, "app_protect_policy_file": {1, 1}, "health_check": {0, -1}, "queue": {1, 2}, "keepalive": {1, 1},
+	"proxy_next_upstream": {1, -1}, "proxy_next_upstream_timeout": {1, 1}, "proxy_next_upstream_tries": {1, 1}, "send": {1, 1}, "expect": {1, 2}, "status": {1, -1}}
+
+type verifDef struct{ kind, scope, name, file string }
+
+// verifAnalyse reads every file with the tokenizer twin and collects lexical errors, arity errors and the definitions of
+// identifiers that NGINX requires to be unique.
+func verifAnalyse(files map[string]string) (malformed, arity []string, defs []verifDef) {
+	var names []string
+	for f := range files {
+		names = append(names, f)
+	}
+	sort.Strings(names)
+	for _, f := range names {
+		ctx := "http"
+		if strings.HasPrefix(f, "stream/") {
+			ctx = "stream"
+		}
+		if f == "main" {
+			ctx = "main"
+		}
+		evs := verifio.NgxLex(files[f])
+		var stack []string // block names
+		serverID := 0
+		var listens []string
+		var snames []string
+		flushServer := func() {
+			for _, l := range listens {
+				for _, n := range snames {
+					defs = append(defs, verifDef{"server_name", ctx + "@" + l, n, f})
+				}
+			}
+			listens, snames = nil, nil
+		}
+		for _, e := range evs {
+			switch e.Kind {
+			case "error":
+				malformed = append(malformed, f+":"+verifClean(e.Msg))
+			case "close":
+				if len(stack) > 0 {
+					if stack[len(stack)-1] == "server" && (len(stack) == 1 || stack[len(stack)-2] != "upstream") {
+						flushServer()
+					}
+					stack = stack[:len(stack)-1]
+				}
+			case "dir", "open":
+				if len(e.Args) == 0 {
+					continue
+				}
+				name := e.Args[0]
+				nargs := len(e.Args) - 1
+				inData := len(stack) > 0 && (stack[len(stack)-1] == "map" || stack[len(stack)-1] == "split_clients" || stack[len(stack)-1] == "match" || stack[len(stack)-1] == "types" || stack[len(stack)-1] == "geo")
+				if !inData || e.Kind == "open" {
+					if nargs == 0 && !verifZeroArg[name] && e.Kind == "dir" {
+						arity = append(arity, f+":"+verifClean(name)+"/0")
+					}
+					if a, ok := verifArity[name]; ok && !inData {
+						if nargs < a[0] || (a[1] >= 0 && nargs > a[1]) {
+							if !(name == "server" && e.Kind == "open") {
+								arity = append(arity, fmt.Sprintf("%s:%s/%d", f, verifClean(name), nargs))
+							}
+						}
+					}
+				}
+				top := ""
+				if len(stack) > 0 {
+					top = stack[len(stack)-1]
+				}
+				arg := func(i int) string {
+					if i < len(e.Args) {
+						return e.Args[i]
+					}
+					return ""
+				}
+				zoneOf := func() string {
+					for _, a := range e.Args[1:] {
+						if strings.HasPrefix(a, "zone=") {
+							return strings.SplitN(strings.TrimPrefix(a, "zone="), ":", 2)[0]
+						}
+					}
+					return ""
+				}
+				switch {
+				case e.Kind == "open" && name == "upstream":
+					defs = append(defs, verifDef{"upstream", ctx, arg(1), f})
+				case e.Kind == "dir" && name == "zone" && top == "upstream":
+					defs = append(defs, verifDef{"zone", ctx, arg(1), f})
+				case e.Kind == "dir" && name == "limit_req_zone":
+					defs = append(defs, verifDef{"limit_req_zone", ctx, zoneOf(), f})
+				case e.Kind == "dir" && name == "keyval_zone":
+					defs = append(defs, verifDef{"keyval_zone", ctx, zoneOf(), f})
+				case e.Kind == "dir" && name == "proxy_cache_path":
+					for _, a := range e.Args[1:] {
+						if strings.HasPrefix(a, "keys_zone=") {
+							defs = append(defs, verifDef{"cache_zone", ctx, strings.SplitN(strings.TrimPrefix(a, "keys_zone="), ":", 2)[0], f})
+						}
+					}
+				case e.Kind == "dir" && name == "keyval" && !inData:
+					defs = append(defs, verifDef{"keyval_variable", ctx, arg(2), f})
+				case e.Kind == "dir" && name == "auth_jwt_claim_set" && !inData:
+					defs = append(defs, verifDef{"jwt_claim_variable", ctx, arg(1), f})
+				case e.Kind == "open" && name == "match" && (top == "" || top == "http" || top == "stream"):
+					defs = append(defs, verifDef{"match", ctx, arg(1), f})
+				case e.Kind == "open" && name == "location" && top == "server":
+					key := strings.Join(e.Args[1:], " ")
+					kind := "location"
+					if strings.HasPrefix(arg(1), "@") {
+						kind = "named_location"
+					}
+					defs = append(defs, verifDef{kind, fmt.Sprintf("%s#server%d", f, serverID), key, f})
+				case e.Kind == "dir" && name == "listen" && top == "server":
+					listens = append(listens, arg(1))
+				case e.Kind == "dir" && name == "server_name" && top == "server":
+					snames = append(snames, e.Args[1:]...)
+				}
+				if e.Kind == "open" {
+					if name == "server" && top != "upstream" {
+						serverID++
+					}
+					stack = append(stack, name)
+				}
+			}
+		}
+	}
+	return
+}
+
+func verifDuplicates(defs []verifDef, kinds map[string]bool) []string {
+	seen := map[string]string{}
+	var out []string
+	for _, d := range defs {
+		if !kinds[d.kind] || d.name == "" {
+			continue
+		}
+		k := d.kind + "|" + d.scope + "|" + d.name
+		if prev, ok := seen[k]; ok {
+			out = append(out, verifClean(fmt.Sprintf("%s:%s(%s)in:%s+%s", d.kind, d.name, d.scope, prev, d.file)))
+			continue
+		}
+		seen[k] = d.file
+	}
+	sort.Strings(out)
+	return out
+}
+
+// VerifWf renders a generated set of resources and reports what would stop NGINX from loading it.
+//
+// kv: plus=0|1  deps=ok|nosecrets|badsecrets|noendpoints|nopolicies
+//
+//	objs = item;item;...   item = fx:<fixture file>:<ns>:<name prefix>:<host tag>  |  min:<ing|vs|ts>:<ns>:<name>:<host>:<svc>
+func VerifWf(kv map[string]string) string {
+	plus := kv["plus"] == "1"
+	var objs []interface{}
+	nsUsed := map[string]string{} // ns -> host tag of the first fixture instance there (policies / routes are instantiated once per namespace)
+	for _, it := range strings.Split(kv["objs"], ";") {
+		p := strings.Split(it, ":")
+		switch {
+		case len(p) == 5 && p[0] == "fx":
+			fx := verifFxByName(p[1])
+			if fx == nil || (fx.PlusOnly && !plus) {
+				continue
+			}
+			o, err := verifInstantiate(fx, p[2], p[3], p[4])
+			if err != nil {
+				return "fixture-error:" + verifClean(err.Error())
+			}
+			objs = append(objs, o)
+			if _, ok := nsUsed[p[2]]; !ok {
+				nsUsed[p[2]] = p[4]
+			}
+		case len(p) == 6 && p[0] == "min":
+			if o := verifMinimal(p[1], p[2], p[3], p[4], p[5]); o != nil {
+				objs = append(objs, o)
+			}
+		}
+	}
+	if kv["deps"] != "nopolicies" {
+		fxs, _ := verifFixtures()
+		var nss []string
+		for ns := range nsUsed {
+			nss = append(nss, ns)
+		}
+		sort.Strings(nss)
+		for _, ns := range nss {
+			for _, f := range fxs {
+				if (f.Kind != "policy" && f.Kind != "vsr") || (f.PlusOnly && !plus) {
+					continue
+				}
+				o, err := verifInstantiate(f, ns, "", nsUsed[ns])
+				if err == nil {
+					objs = append(objs, o)
+				}
+			}
+		}
+	}
+	var accepted []interface{}
+	rejected := 0
+	for _, o := range objs {
+		if e := verifAccept(o, plus); e != "" {
+			rejected++
+			continue
+		}
+		accepted = append(accepted, o)
+	}
+	verifDepsMode = kv["deps"]
+	files, _, err := verifRenderSet(plus, accepted, "")
+	verifDepsMode = ""
+	if err != nil {
+		return "setup-error"
+	}
+	malformed, arity, defs := verifAnalyse(files)
+	dups := verifDuplicates(defs, map[string]bool{"upstream": true, "zone": true, "limit_req_zone": true, "keyval_zone": true, "cache_zone": true, "match": true,
+		"named_location": true, "server_name": true, "keyval_variable": true, "jwt_claim_variable": true})
+	locdups := verifDuplicates(defs, map[string]bool{"location": true})
+	return fmt.Sprintf("objs=%d#rejected=%d#files=%d#defs=%d#malformed=%s#arity=%s#dups=%s#locdups=%s", len(objs), rejected, len(files), len(defs),
+		strings.Join(malformed, ","), strings.Join(arity, ","), strings.Join(dups, ","), strings.Join(locdups, ","))
+}
+
+// verifDepsMode degrades the environment: what the resources refer to is missing or invalid.
+var verifDepsMode string
+
+// VerifInjWf replaces one string leaf by a benign variation (empty items, stray separators, empty string) and reports what the
+// whole-output analysis says about the files: kv as VerifInj.
+func VerifInjWf(kv map[string]string) string {
+	plus := kv["plus"] == "1"
+	fx := verifFxByName(kv["fx"])
+	if fx == nil {
+		return "no-fixture"
+	}
+	obj, err := fx.decode()
+	if err != nil {
+		return "fixture-error"
+	}
+	found := false
+	for _, l := range verifLeaves(obj) {
+		if verifClean(l.Path) == kv["path"] {
+			l.Set(verifHexDecode(kv["val"]))
+			found = true
+			break
+		}
+	}
+	if !found {
+		return "no-leaf"
+	}
+	if e := verifAccept(obj, plus); e != "" {
+		return "rej"
+	}
+	objs, err := verifFixtureSet(plus, fx.File, obj, fx)
+	if err != nil {
+		return "fixture-error"
+	}
+	host := ""
+	if p, ok := obj.(*conf_v1.Policy); ok {
+		host = p.Name
+	}
+	files, _, err := verifRenderSet(plus, objs, host)
+	if err != nil {
+		return "setup-error"
+	}
+	malformed, arity, defs := verifAnalyse(files)
+	dups := verifDuplicates(defs, map[string]bool{"upstream": true, "zone": true, "limit_req_zone": true, "keyval_zone": true, "cache_zone": true, "match": true,
+		"named_location": true, "server_name": true, "keyval_variable": true, "jwt_claim_variable": true})
+	return fmt.Sprintf("acc#files=%d#defs=%d#malformed=%s#arity=%s#dups=%s", len(files), len(defs), strings.Join(malformed, ","), strings.Join(arity, ","), strings.Join(dups, ","))
 }
